@@ -278,6 +278,19 @@ def heap_variants(R, E, F, rule, cfg):
                        '%s:%s' % (fn['file'], fn['line']))
         fn = fn_of(adt, 'pop')
         for path in E.run(fn['path']):
+            if path.exit == 'panic':
+                # "Panics if the buffer is empty": only then (the assertion / the unwrap of pop_front's None)
+                ln = [e for e in path.events if e['k'] == 'call' and e['name'] == 'len']
+                pfn = [e for e in path.events if e['k'] == 'call' and e['name'] == 'pop_front']
+                empty = any(positive(E, path.facts, e['ret']) == 0 for e in ln) or \
+                    any(E.variant_known(path.facts, e['ret']) == ('eq', 'None') for e in pfn)
+                if empty:
+                    R.ok(rule, '%s|panics only when empty' % fn['path'])
+                else:
+                    R.fail(rule, [fn['path'], 'pop-panics-on-non-empty'],
+                           'pop can panic on a path that has not established that the buffer is empty',
+                           '%s:%s' % (fn['file'], fn['line']))
+                continue
             if path.exit != 'return':
                 continue
             pf = [e for e in path.events if e['k'] == 'call' and e['name'] in ('pop_front', 'pop_back', 'remove')]
